@@ -720,6 +720,31 @@ DIRECTED = [
 ]
 
 
+def _wide(shape, name, tid=0, b0=0):
+    """one tensor whose axes are all open (a wrap), many axes of small dimension"""
+    n = 1
+    for d in shape:
+        n *= d
+    bids = list(range(b0, b0 + len(shape)))
+    return {"tensors": [[tid, list(shape), bids, name], [-1, list(shape), bids, None]], "bonds": None,
+            "data": {name: {"shape": list(shape), "re": [((7 * i) % 5) - 2 + (i % 3 == 0) for i in range(n)], "im": None}}}
+
+
+DIRECTED += [
+    # many open axes (the random networks have at most 4 per operand): 9 and more combined axes, few of them remaining, the
+    # remaining ones at high combined positions - their order is "first's axes, then second's" whatever container holds them
+    ("wide-merge-6+4-over-3-joins", _wide([2, 1, 2, 1, 2, 3], "wa"),
+     [["merge", _wide([2, 1, 2, 2], "wb"), [[0, 0], [1, 1], [2, 2]]], ["transpose", None]]),
+    ("wide-merge-5+5-scattered-joins", _wide([2, 2, 1, 3, 2], "wa"),
+     [["merge", _wide([2, 3, 2, 1, 2], "wb"), [[0, 0], [3, 1], [4, 2], [2, 3]]], ["transpose", [1, 0]]]),
+    ("wide-merge-8+3-then-again", _wide([2, 1, 1, 2, 1, 2, 1, 3], "wa"),
+     [["merge", _wide([2, 2, 3], "wb"), [[0, 0], [3, 1]]],
+      ["merge", _wide([2, 1, 1, 1, 3, 2], "wc", tid=5, b0=20), [[0, 1], [1, 2], [2, 3], [3, 0], [4, 4]]]]),
+    ("wide-merge-9+2-no-joins-then-transpose", _wide([1, 2, 1, 1, 2, 1, 1, 1, 2], "wa"),
+     [["merge", _wide([2, 1], "wb"), []], ["transpose", [10, 9, 8, 7, 6, 5, 4, 3, 2, 1, 0]]]),
+]
+
+
 _G = {"tensors": [[0, [2, 3, 2], [0, 1, 2], "a"], [-1, [2, 3, 2], [0, 1, 2], None]], "bonds": None,
       "data": {"a": {"shape": [2, 3, 2], "re": list(range(1, 13)), "im": None}}}
 _H = {"tensors": [[4, [2, 3], [7, 8], "h"], [-1, [2, 3], [7, 8], None]], "bonds": None,
